@@ -155,6 +155,26 @@ func checkC05CLI(c CLIPairCase, r *rec.Rec) error {
 	}
 	opts, format, name := flagOptions(c.Flags)
 	equal := jdx.NodeText(c.A).Equals(jdx.NodeText(c.B), opts...)
+	bin := c.Bin
+	var pre []string
+	if c.Bin == "jd-top-v1" {
+		// the top-level binary on the v1 library: equality is the v1 library's
+		bin, pre = "jd-top", []string{"-v2=false"}
+		md := v1Metadata(name)
+		equal = v1Node(c.A).Equals(v1Node(c.B), md...)
+		d1 := v1Node(c.A).Diff(v1Node(c.B), md...)
+		var rerr error
+		switch format {
+		case "patch":
+			_, rerr = d1.RenderPatch()
+		case "merge":
+			_, rerr = v1Node(c.A).Diff(v1Node(c.B), md...).RenderMerge()
+		}
+		if rerr != nil {
+			r.Class("skipped:not-renderable(v1)")
+			return nil
+		}
+	}
 	// Where the chosen format cannot express the diff the CLI reports an
 	// error (status 2); such cases are outside "0 or 1" and are skipped.
 	d := jdx.NodeText(c.A).Diff(jdx.NodeText(c.B), opts...)
@@ -186,7 +206,8 @@ func checkC05CLI(c CLIPairCase, r *rec.Rec) error {
 	if c.Yaml {
 		args = append([]string{"-yaml"}, args...)
 	}
-	res := runCLI(c.Bin, args, nil, dir)
+	args = append(pre, args...)
+	res := runCLI(bin, args, nil, dir)
 	if err := cliTrouble(res); err != nil {
 		return err
 	}
@@ -235,7 +256,7 @@ func optFlags(opts string) []string {
 
 func genC05CLI(t *rapid.T) CLIPairCase {
 	pc := genC05(t)
-	c := CLIPairCase{A: pc.A, B: pc.B, Bin: gen.Pick(t, "bin", []string{"jd-v2", "jd-top"})}
+	c := CLIPairCase{A: pc.A, B: pc.B, Bin: gen.Pick(t, "bin", []string{"jd-v2", "jd-top", "jd-top-v1"})}
 	c.Flags = optFlags(pc.Opts)
 	if !jdx.IsMerge(pc.Opts) {
 		switch gen.Int(t, "format", 0, 5) {
